@@ -742,6 +742,33 @@ async def s_queue() -> List[str]:
     await asyncio.gather(w, waiting, return_exceptions=True)
     if q2._unfinished_tasks != 0:
         viol.append("a consumer cancelled while waiting marked something")
+    # unusual items (None, falsy values, equal items) and nested blocks in one task: every taken item is marked exactly once
+    q3 = Queue()
+    items = [None, 0, "", False, "same", "same", None]
+    for it in items:
+        q3.put_nowait(it)
+
+    async def worker(n):
+        for _ in range(n):
+            async with q3 as item:
+                await asyncio.sleep(0)
+
+    await asyncio.gather(worker(3), worker(2))
+    if q3._unfinished_tasks != len(items) - 5:
+        viol.append(f"{len(items)} unusual items put, 5 blocks exited: unfinished={q3._unfinished_tasks}, expected {len(items) - 5}")
+
+    async def nested():
+        async with q3 as a:
+            async with q3 as b:
+                await asyncio.sleep(0)
+
+    await nested()
+    if q3._unfinished_tasks != 0:
+        viol.append(f"two nested blocks in one task exited: unfinished={q3._unfinished_tasks}, expected 0")
+    try:
+        await asyncio.wait_for(q3.join(), 0.2)
+    except asyncio.TimeoutError:
+        viol.append("join() hangs although every item was taken and every block has exited (unusual items / nested blocks)")
     return viol
 
 
